@@ -348,6 +348,8 @@ def run_config(cfg, res):
                         if W.World.success(sdel.status):
                             deleted_defaults[t] = key
                             res.count("default_collections_deleted_by_user")
+                            if bare_default and t.endswith(bare_default[0]):
+                                bare_default = None      # (the restored repository was the default calendar: gone with it)
                 d2 = wk.discover(start, life)
                 if d2 is None:
                     return
@@ -392,7 +394,7 @@ def all_configs(seed):
     for fe, mode, prefix, principal, restarts in itertools.product(FES, MODES, PREFIXES, PRINCIPALS, RESTARTS):
         out.append({"fe": fe, "mode": mode, "prefix": prefix, "principal": principal, "restarts": restarts, "seed": seed * 1000 + len(out),
                     "delete_default": [None, "calendars", "addressbooks"][len(out) % 3] if restarts >= 1 else None, "bare_user_col": len(out) % 4 == 1})
-        out[-1]["delete_home"] = restarts >= 1 and not out[-1]["delete_default"] and len(out) % 2 == 0
+        out[-1]["delete_home"] = restarts >= 1 and (len(out) // 3) % 2 == 0
     return out
 
 
